@@ -165,6 +165,7 @@ package storagemem
 //@ func newBucket(pathToImmutableObject) (r)
 //@   property C14
 //@   ensures r != nil
+//@   ensures fresh: !old(allocated(r)) && allocated(r)
 //@   ensures given: pathToImmutableObject != nil ==> r.pathToImmutableObject == pathToImmutableObject
 //@   ensures empty: pathToImmutableObject == nil ==> len(r.pathToImmutableObject) == 0 && (forall k string :: !(k in r.pathToImmutableObject))
 //
